@@ -2728,7 +2728,7 @@ class Entity(MutableMapping[str, str]):
                     raise ValueError(f'Unrecognised block keyvalue "{name}" in entity!')
             elif name == "id" and item.value.isnumeric():
                 ent_id = int(item.value)
-            elif name.startswith('replace'):
+            elif name.startswith('replace') and name[7:].isdecimal():
                 ind_str = name[-2:]  # Index is the last 2 digits
                 try:
                     index = int(ind_str)
